@@ -3,8 +3,8 @@ import json
 
 def run(ctx):
     # the oracle itself: bignum arithmetic and the ring library satisfy the ring axioms on small complete domains
-    ctx.tlc_mc("MC_BigNum", "MC_BigNum.cfg", workers=1, coverage=False, timeout=600)
-    ctx.tlc_mc("MC_Rings", "MC_Rings.cfg", workers=1, coverage=False, timeout=600)
+    ctx.tlc_mc("MC_BigNum", "MC_BigNum.cfg", workers=1, coverage=False, timeout=600, cache=True)
+    ctx.tlc_mc("MC_Rings", "MC_Rings.cfg", workers=1, coverage=False, timeout=600, cache=True)
     # A + exhaustive model of the Scalars machine on the small domains
     path, objs = ctx.tlc_gen("Gen_Scalars", "Gen_Scalars.cfg", workers=4, extra=["-coverage", "1"])
     summ, mism, _ = ctx.yv("c14", "replay", "--in", path)
